@@ -189,6 +189,27 @@ func registerMoreStubs(it *Interp) {
 	durStub("Hours", 3600000000000, map[uint64]int64{fbitsOf(24): 86400000000000})
 	durStub("Minutes", 60000000000, nil)
 	durStub("Seconds", 1000000000, nil)
+	// GSM 7-bit text -> septets: real code, except for texts created by vGSM7Text
+	gsmPkg := repoModule + "/datacoding/gsm7encoding"
+	s[gsmPkg+".Encode"] = func(it *Interp, fr *frame, cc *ssa.CallCommon, a []Value) Value {
+		x := a[0].(*Str)
+		if v, ok := it.gsm7Text[x.Obj]; ok && x.Off.IsConst() && x.Off.Val == 0 {
+			if x.Len.IsConst() && x.Len.Val == 0 {
+				z := it.c64(0)
+				return Tuple{&Slice{Off: z, Len: z, Cap: z, ECells: 1}, it.nilError()}
+			}
+			o := it.copyView(v)
+			return Tuple{&Slice{Obj: o, Off: it.c64(0), Len: v.ln, Cap: v.ln, ECells: 1}, it.nilError()}
+		}
+		return it.callBody(fr, it.pkgFunc(gsmPkg, "Encode"), a, nil, cc)
+	}
+	s[gsmPkg+".IsValidGSM7String"] = func(it *Interp, fr *frame, cc *ssa.CallCommon, a []Value) Value {
+		x := a[0].(*Str)
+		if _, ok := it.gsm7Text[x.Obj]; ok {
+			return it.St.T
+		}
+		return it.callBody(fr, it.pkgFunc(gsmPkg, "IsValidGSM7String"), a, nil, cc)
+	}
 	s["strconv.Atoi"] = func(it *Interp, fr *frame, cc *ssa.CallCommon, a []Value) Value {
 		x := a[0].(*Str)
 		if cs, ok := it.concreteStr(x); ok {
